@@ -881,6 +881,18 @@ async fn run_scenario(sc: &Value, dir: &str, rec: &Rec) -> String {
                 }
                 json!({"ended": ended, "tried": tried, "accepted": accepted})
             }
+            "lru_drop" => {
+                // what a full cache does at any moment: the process leaves the LRU, an instance in use stays alive
+                let pid = s(op, "pid", "p1").to_string();
+                rig.engine.verif_lru_drop(&pid);
+                json!({"ok": true})
+            }
+            "touch" => {
+                // a client looks the process up through the API: loads it into the cache when it is not there
+                let pid = s(op, "pid", "p1").to_string();
+                let p = rig.engine.executor().proc().get_process(&pid);
+                json!({"found": p.is_some(), "tasks": p.map(|p| p.tasks().len())})
+            }
             "yield" => {
                 // let the other tasks of the runtime take n turns (on a current-thread runtime: exactly n rounds of
                 // the run queue), without waiting for quiescence
